@@ -987,8 +987,9 @@ class Interp:
         if base is None:
             raise Raised(ExcVal("AttributeError", (f"'NoneType' object has no attribute '{attr}'",)), node)
         if isinstance(base, _NATIVE_TYPES) and not isinstance(base, (range, slice, type(None))):
+            import collections as _c
             for t, names in _NATIVE_METHODS.items():
-                if (type(base) is t or (isinstance(base, _NativeModel) and isinstance(base, t)
+                if (type(base) is t or (isinstance(base, (_NativeModel, _c.defaultdict, _c.OrderedDict)) and isinstance(base, t)
                                          and not (t is int and isinstance(base, bool)))) and attr in names:
                     return getattr(base, attr)
             if isinstance(base, bool) and attr in _NATIVE_METHODS[int]:
